@@ -224,6 +224,7 @@ type c14E2E struct {
 	ReqChunked bool          `json:"request_chunked"`          // the client sends no Content-Length (Transfer-Encoding: chunked)
 	Status     int           `json:"status"`                   // the target's final status (ok, head and target-truncates endings)
 	Hints      int           `json:"hints"`                    // 103 responses the target sends before it
+	AskUpgrade string        `json:"asks_upgrade"`             // the client asks for a protocol upgrade (websocket, h2c) that the target ignores: an ordinary exchange
 	Ending     string        `json:"ending"`                   // ok | head | target-close-before | target-truncates | client-abort-upload | client-abort-download | sse | upgrade
 }
 
@@ -262,6 +263,9 @@ func c14GenE2E(rng *rand.Rand, idx int) c14E2E {
 	sc.Status = pick(rng, []int{200, 200, 200, 201, 404, 500})
 	if rng.IntN(4) == 0 {
 		sc.Hints = 1 + rng.IntN(2)
+	}
+	if (sc.Ending == "ok" || sc.Ending == "target-truncates") && idx%3 == 1 {
+		sc.AskUpgrade = []string{"websocket", "h2c"}[(idx/3)%2]
 	}
 	return sc
 }
@@ -736,6 +740,9 @@ func c14RunE2E(t *testing.T, run *Run, sc c14E2E) {
 		head = "GET /ws HTTP/1.1\r\nHost: c14.example\r\nConnection: Upgrade\r\nUpgrade: websocket\r\n"
 		reqBody = nil
 	}
+	if sc.AskUpgrade != "" {
+		head += "Connection: Upgrade\r\nUpgrade: " + sc.AskUpgrade + "\r\n"
+	}
 	var tLastWrite time.Duration
 	upDone := make(chan struct{})
 	go func() {
@@ -840,7 +847,7 @@ func c14RunE2E(t *testing.T, run *Run, sc c14E2E) {
 	}
 	reqTooBig := sc.BufReq && sc.MaxReq > 0 && int64(sc.ReqLen) > sc.MaxReq
 	respTooBig := sc.BufResp && sc.MaxResp > 0 && int64(sc.RespLen) > sc.MaxResp
-	class := fmt.Sprintf("e2e|req=%v|chunked=%v|resp=%v|pre=%v|%s|reqBig=%v|respBig=%v|reqSpill=%v|respSpill=%v", sc.BufReq, sc.ReqChunked, sc.BufResp, sc.Prelude, sc.Ending, reqTooBig, respTooBig, int64(sc.ReqLen) > sc.MaxMem, int64(sc.RespLen) > sc.MaxMem)
+	class := fmt.Sprintf("e2e|req=%v|chunked=%v|resp=%v|pre=%v|ask=%v|%s|reqBig=%v|respBig=%v|reqSpill=%v|respSpill=%v", sc.BufReq, sc.ReqChunked, sc.BufResp, sc.Prelude, sc.AskUpgrade != "", sc.Ending, reqTooBig, respTooBig, int64(sc.ReqLen) > sc.MaxMem, int64(sc.RespLen) > sc.MaxMem)
 	switch sc.Ending {
 	case "upgrade":
 		if resp == nil || resp.Status() != 101 || !upgradeEcho {
